@@ -23,6 +23,7 @@ func init() {
 func runC17(c *an.Ctx) {
 	r17a(c)
 	r17b(c)
+	r17bReaped(c)
 	r17c(c)
 	r17d(c)
 	r17e(c)
@@ -189,6 +190,48 @@ func derefUses(v ssa.Value) []ssa.Instruction {
 		}
 	}
 	return out
+}
+
+// r17bReaped: no pending state is recorded (and nothing signalled) for a command whose Wait has returned.
+func r17bReaped(c *an.Ctx) {
+	c.Rule("R17g", "ensureBasicTaskKilled: a command whose ProcessState is set (Wait returned) is treated as gone: no pending-state record, no signal", 1)
+	fn := c.MustFn(exPkg, "basicTaskBase.ensureBasicTaskKilled")
+	if fn == nil {
+		return
+	}
+	c.Subject()
+	type edge struct {
+		b *ssa.BasicBlock
+		i int
+	}
+	cut := map[edge]bool{}
+	tests := 0
+	for _, b := range fn.Blocks {
+		x, nilIdx, ok := an.NilCondEdge(b)
+		if !ok {
+			continue
+		}
+		if f := an.FieldOf(x); f != nil && f.Name() == "ProcessState" {
+			cut[edge{b, nilIdx}] = true // remove the "still running" edge: what stays reachable is reachable for a reaped child
+			tests++
+		}
+	}
+	var bad []string
+	an.Instrs(fn, func(in ssa.Instruction) {
+		isSend := false
+		if s, ok := in.(*ssa.Send); ok && isFieldNamed(s.Chan, "pendingFinalTaskStateCh") {
+			isSend = true
+		}
+		isSig := false
+		if ci, ok := in.(ssa.CallInstruction); ok && an.CalleeName(ci.Common()) == "syscall.Kill" {
+			isSig = true
+		}
+		if (isSend || isSig) && an.ReachableCut(fn, in, func(b *ssa.BasicBlock, i int) bool { return cut[edge{b, i}] }) {
+			bad = append(bad, c.PosStr(in.Pos()))
+		}
+	})
+	c.Ob("(*executor/executable.basicTaskBase).ensureBasicTaskKilled|reaped-is-gone", fn.Pos(), len(bad) == 0 && tests > 0,
+		"for a child that has already been reaped (ProcessState != nil, e.g. terminated by a signal) the function still records a pending final state / signals (at %v): nobody consumes the 1-slot pending channel any more, so the next stop or kill blocks forever and the task never gets its terminal status", bad)
 }
 
 func r17c(c *an.Ctx) {
